@@ -84,8 +84,16 @@ class FileInfo:
                     from .normalize import Inliner as _Inl, _Canon as _Cn
                     il = _Inl(model, self.rel, owner_cls)
                     il.aliases = {}
-                    il._exprs(st, {})
+                    # (methods of the class are plain names at class level: `property(_getter)`; two passes: a getter may call another getter)
+                    meths = {x.name: x for x in owner_cls.body if isinstance(x, ast.FunctionDef)}
+                    for _ in range(2):
+                        il._exprs(st, meths)
                     inlined.update(il.inlined)
+                    for x in ast.walk(st):          # N18 inside lambdas of class-level statements
+                        if isinstance(x, ast.Lambda):
+                            for y in ast.walk(x.body):
+                                if isinstance(y, ast.Attribute) and isinstance(y.value, ast.Name) and y.value.id == owner_cls.name and isinstance(y.value.ctx, ast.Load):
+                                    y.value.id = "__class__"
                     container[i] = _Cn().visit(st)
                 elif isinstance(st, (ast.FunctionDef,)):
                     nf, inl = normalize_function(model, self.rel, st, owner_cls)
